@@ -142,19 +142,21 @@ func ruleUnescapeWhenever(c *Ctx, rule string) {
 			if !ok {
 				return
 			}
-			h := call.Call.StaticCallee()
-			if h == nil || !c.P.InPkg(h) || len(h.Params) != 1 || !tString(h.Params[0].Type()) || h.Signature.Results().Len() != 1 || !tString(h.Signature.Results().At(0).Type()) {
-				return
-			}
-			// the helper applies a Replacer held in a package variable to its argument
-			uses := false
-			core.EachInstr(h, func(j ssa.Instruction) {
-				if hc, ok := j.(*ssa.Call); ok && core.CalleeKey(&hc.Call) == "strings.Replacer.Replace" {
-					uses = true
+			if core.CalleeKey(&call.Call) != "strings.Replacer.Replace" {
+				h := call.Call.StaticCallee()
+				if h == nil || !c.P.InPkg(h) || len(h.Params) != 1 || !tString(h.Params[0].Type()) || h.Signature.Results().Len() != 1 || !tString(h.Signature.Results().At(0).Type()) {
+					return
 				}
-			})
-			if !uses || fn == h {
-				return
+				// the helper applies a Replacer held in a package variable to its argument
+				uses := false
+				core.EachInstr(h, func(j ssa.Instruction) {
+					if hc, ok := j.(*ssa.Call); ok && core.CalleeKey(&hc.Call) == "strings.Replacer.Replace" {
+						uses = true
+					}
+				})
+				if !uses || fn == h {
+					return
+				}
 			}
 			// only the decoding direction is of interest: callers that split a pointer
 			splits := false
@@ -318,17 +320,6 @@ func ruleKeywordPreparationsIndependent(c *Ctx, rule string) {
 		if !c.P.InPkg(fn) {
 			continue
 		}
-		has := false
-		core.EachInstr(fn, func(i ssa.Instruction) {
-			if st, ok := i.(*ssa.Store); ok {
-				if fa, ok := st.Addr.(*ssa.FieldAddr); ok && c.fieldName(fa.X.Type(), fa.Field) == "resolvedInfo.pattern" {
-					has = true
-				}
-			}
-		})
-		if !has {
-			continue
-		}
 		core.EachInstr(fn, func(i ssa.Instruction) {
 			st, ok := i.(*ssa.Store)
 			if !ok {
@@ -339,12 +330,19 @@ func ruleKeywordPreparationsIndependent(c *Ctx, rule string) {
 				return
 			}
 			name := c.fieldName(fa.X.Type(), fa.Field)
-			if len(name) < 13 || name[:13] != "resolvedInfo." {
+			if name != "resolvedInfo.pattern" && name != "resolvedInfo.patternProperties" && name != "resolvedInfo.isRequired" {
 				return
 			}
 			n++
 			fields := map[string]bool{}
-			for _, g := range guardsLocal(st) {
+			// (the store may sit in a helper called for this keyword: what holds at its only call holds here)
+			var gs []guardAtom
+			var at ssa.Instruction = st
+			for hops := 0; hops < 3 && at != nil; hops++ {
+				gs = append(gs, guardsLocal(at)...)
+				at = soleCaller(at.Parent())
+			}
+			for _, g := range gs {
 				for f := range c.schemaFieldsIn(g.Cond) {
 					fields[f] = true
 				}
